@@ -133,10 +133,19 @@ def lift(x):
 
 
 def add(a, b):
+    """n-ary, associativity/commutativity-normalised sum (terms sorted by node id, constants
+    folded into one) so that a+b and b+a, (a+b)+c and a+(b+c) are the same node."""
     if isc(a) and isc(b): return const(a.args[0] + b.args[0])
-    if isc(a) and a.args[0] == 0: return b
-    if isc(b) and b.args[0] == 0: return a
-    return N("+", a, b)
+    terms, c = [], Fraction(0)
+    for x in (a, b):
+        for t in (x.args if x.op == "+" else (x,)):
+            if isc(t): c += t.args[0]
+            else: terms.append(t)
+    terms.sort(key=lambda n: n.id)
+    if c != 0: terms.insert(0, const(c))
+    if not terms: return const(0)
+    if len(terms) == 1: return terms[0]
+    return N("+", *terms)
 
 
 def neg(a):
@@ -149,6 +158,9 @@ def sub(a, b): return add(a, neg(b))
 
 
 def mul(a, b):
+    """Binary product with commutativity normalised (operands ordered by node id).  Products
+    are deliberately NOT flattened: the compositional cuts (DESIGN 2.3) recognise rate terms
+    and conductances as sub-DAGs, which flattening would dissolve."""
     if isc(a) and isc(b): return const(a.args[0] * b.args[0])
     for x, y in ((a, b), (b, a)):
         if isc(x):
@@ -157,6 +169,7 @@ def mul(a, b):
             # definedness walk still visits y.
             if x.args[0] == 1: return y
             if x.args[0] == 0 and not partial(y): return x
+    if b.id < a.id: a, b = b, a
     return N("*", a, b)
 
 
@@ -268,8 +281,14 @@ def rebuild(n, kids):
     if o in ("c", "v", "b", "nonfinite"): return n
     if o == "uf": return uf(n.args[0], kids[0])
     if o == "neg": return neg(kids[0])
-    if o == "+": return add(*kids)
-    if o == "*": return mul(*kids)
+    if o == "+":
+        r = kids[0]
+        for k in kids[1:]: r = add(r, k)
+        return r
+    if o == "*":
+        r = kids[0]
+        for k in kids[1:]: r = mul(r, k)
+        return r
     if o == "/": return div(*kids)
     if o == "ite": return ite(*kids)
     if o == "<": return lt(*kids)
@@ -315,8 +334,12 @@ def evalf(roots, env, ufs=None):
         elif o == "b": r = a[0]
         elif o == "nonfinite": r = float(a[0])
         elif o == "neg": r = -memo[a[0].id]
-        elif o == "+": r = memo[a[0].id] + memo[a[1].id]
-        elif o == "*": r = memo[a[0].id] * memo[a[1].id]
+        elif o == "+":
+            r = memo[a[0].id]
+            for t in a[1:]: r = r + memo[t.id]
+        elif o == "*":
+            r = memo[a[0].id]
+            for t in a[1:]: r = r * memo[t.id]
         elif o == "/":
             x, y = memo[a[0].id], memo[a[1].id]
             r = float(np.float64(x) / np.float64(y)) if y == 0 else x / y
@@ -347,8 +370,12 @@ def evalq(roots, env):
         elif o == "v": r = Fraction(env[a[0]])
         elif o == "b": r = a[0]
         elif o == "neg": r = -memo[a[0].id]
-        elif o == "+": r = memo[a[0].id] + memo[a[1].id]
-        elif o == "*": r = memo[a[0].id] * memo[a[1].id]
+        elif o == "+":
+            r = memo[a[0].id]
+            for t in a[1:]: r = r + memo[t.id]
+        elif o == "*":
+            r = memo[a[0].id]
+            for t in a[1:]: r = r * memo[t.id]
         elif o == "/": r = memo[a[0].id] / memo[a[1].id]
         elif o == "ite": r = memo[a[1].id] if memo[a[0].id] else memo[a[2].id]
         elif o == "<": r = memo[a[0].id] < memo[a[1].id]
@@ -372,12 +399,18 @@ def diff(root, wrt: str):
         if o in ("c", "b", "nonfinite"): r = Z
         elif o == "v": r = O if a[0] == wrt else Z
         elif o == "neg": r = neg(memo[a[0].id])
-        elif o == "+": r = add(memo[a[0].id], memo[a[1].id])
+        elif o == "+":
+            r = Z
+            for t in a: r = add(r, memo[t.id])
         elif o == "*":
-            da, db = memo[a[0].id], memo[a[1].id]
-            t1 = Z if (isc(da) and da.args[0] == 0) else mul(da, a[1])
-            t2 = Z if (isc(db) and db.args[0] == 0) else mul(a[0], db)
-            r = add(t1, t2)
+            r = Z
+            for i, t in enumerate(a):
+                dt_ = memo[t.id]
+                if isc(dt_) and dt_.args[0] == 0: continue
+                term = dt_
+                for j, u in enumerate(a):
+                    if j != i: term = mul(term, u)
+                r = add(r, term)
         elif o == "/":
             da, db = memo[a[0].id], memo[a[1].id]
             if isc(db) and db.args[0] == 0:
@@ -458,7 +491,7 @@ def pretty(n, depth=6):
     if o == "uf": return f"{a[0]}({pretty(a[1], depth-1)})"
     if o == "ite": return f"ite({pretty(a[0], depth-1)}, {pretty(a[1], depth-1)}, {pretty(a[2], depth-1)})"
     if o == "not": return f"!{pretty(a[0], depth-1)}"
-    return f"({pretty(a[0], depth-1)} {o} {pretty(a[1], depth-1)})"
+    return "(" + f" {o} ".join(pretty(x, depth-1) for x in a) + ")"
 
 
 # numpy helpers ---------------------------------------------------------------------
